@@ -1,2 +1,133 @@
-/- Oracle for C06 (stub: replaced when the property's model is built). -/
-def main : IO Unit := pure ()
+/-
+  Oracle for C06.  Reads the harness' case stream
+
+    CASE <cid> w=<w>
+    INST <name> <fragname> <resin csv|-> <resout csv|-> <body|->     body: add:0:1;inc:1;rset:2:5
+    LINK <name> <src> <dst>          src = e<k> | o<i>.<p>     dst = e<k> | i<i>.<j>
+    INPUT v,v,..                     one line per round
+    PART <pid> <cpname>=<i>:<i>;<cpname>=<i>...
+    X ...                            implementation observations (ignored here)
+    END
+
+  and prints, for every PART, the model's observables in the harness' format:
+
+    M <cid> <pid> flags wf=<0|1> ok=<0|1>
+    M <cid> <pid> asm <ok|multi-input>
+    M <cid> <pid> sec.<c> <romname> | <line> | ...        Frag.secRes rendered
+    M <cid> <pid> prg.<c> <line> | ...                    lowered program
+    M <cid> <pid> att <entry> | ...
+    M <cid> <pid> bonds a>b a>b ...                       sorted
+    M <cid> <pid> out <status> <stream>;<stream>          Frag.Net.run of Frag.compose
+    M <cid> <pid> eval <stream>;<stream>                  Frag.evalOut, round by round
+    M <cid> <pid> temps <c>:<k>=<reg>,.. fresh=<0|1>      temp_fresh evaluated on this section
+-/
+import BMV.Frag
+import BMV.Lines
+open BMV.Frag BMV.Lines
+
+structure Case where
+  cid : String := ""
+  g : Graph := {}
+  inputs : List (List Nat) := []
+  deriving Inhabited
+
+def natList (s : String) : List Nat :=
+  if s = "-" || s = "" then [] else (s.splitOn ",").map nat!
+
+def parseInstr (s : String) : Option Instr :=
+  match s.splitOn ":" with
+  | ["rset", d, v] => some (.rset (nat! d) (nat! v))
+  | ["inc", d] => some (.inc (nat! d))
+  | ["dec", d] => some (.dec (nat! d))
+  | ["clr", d] => some (.clr (nat! d))
+  | ["add", d, s] => some (.add (nat! d) (nat! s))
+  | ["cpy", d, s] => some (.cpy (nat! d) (nat! s))
+  | ["mult", d, s] => some (.mult (nat! d) (nat! s))
+  | _ => none
+
+def parseBody (s : String) : List Instr :=
+  if s = "-" || s = "" then [] else (s.splitOn ";").filterMap parseInstr
+
+def parseSrc (s : String) : Src :=
+  if s.startsWith "e" then .ext (nat! (s.drop 1).toString)
+  else match ((s.drop 1).toString).splitOn "." with
+    | [a, b] => .out (nat! a) (nat! b)
+    | _ => .ext 0
+
+def parseDst (s : String) : Dst :=
+  if s.startsWith "e" then .ext (nat! (s.drop 1).toString)
+  else match ((s.drop 1).toString).splitOn "." with
+    | [a, b] => .inp (nat! a) (nat! b)
+    | _ => .ext 0
+
+def parsePart (s : String) : Part :=
+  (s.splitOn ";").filterMap fun c =>
+    match c.splitOn "=" with
+    | [n, l] => some { name := n, list := if l = "" then [] else (l.splitOn ":").map nat! }
+    | _ => none
+
+def joinBar (ls : List String) : String := " | ".intercalate ls
+
+def insertSorted (x : String) : List String → List String
+  | [] => [x]
+  | y :: ys => if x < y || x == y then x :: y :: ys else y :: insertSorted x ys
+def sortStrings (l : List String) : List String := l.foldl (fun acc x => insertSorted x acc) []
+
+def streams (o : List (List Nat)) : String :=
+  ";".intercalate (o.map fun s => ",".intercalate (s.map toString))
+
+def multiInput (g : Graph) : Bool :=
+  (List.range g.insts.length).any fun i =>
+    (List.range (g.nIn i)).any fun j => decide (g.inCount i j > 1)
+
+def natNodup : List Nat → Bool
+  | [] => true
+  | x :: xs => !xs.contains x && natNodup xs
+
+def partLines (c : Case) (pid : String) (pt : Part) : List String :=
+  let g := c.g
+  let pre := s!"M {c.cid} {pid} "
+  let flags := pre ++ s!"flags wf={if g.wf then 1 else 0} ok={if Part.ok g pt then 1 else 0}"
+  if multiInput g then [flags, pre ++ "asm multi-input"] else
+  let net := compose g pt
+  let secLines := (enum pt).map fun cc =>
+    pre ++ s!"sec.{cc.1} " ++ joinBar (secName g cc.2.list :: renderSec (secRes g cc.2.list))
+  let prgLines := (enum pt).map fun cc =>
+    pre ++ s!"prg.{cc.1} " ++ joinBar ((secRes g cc.2.list).map SInstr.lower)
+  let att := pre ++ "att " ++ joinBar (ioAtt g pt)
+  let bl := pre ++ "bonds " ++ " ".intercalate
+    (sortStrings (net.bonds.map fun b => b.1.render ++ ">" ++ b.2.render))
+  let (outs, status) := net.run c.inputs
+  let outL := pre ++ s!"out {status} " ++ streams outs
+  let ev : List (List Nat) := (List.range (nExtOut g)).map fun k =>
+    c.inputs.map fun row => (evalOut g row k).getD 0
+  let evL := pre ++ "eval " ++ streams ev
+  -- temp_fresh on this very section: the chosen registers are pairwise distinct and occur in no
+  -- line of the section before the replacement
+  let tl := (enum pt).map fun cc =>
+    let s := secSym g cc.2.list
+    let T := tempRegs s
+    let fresh := natNodup T && T.all (fun n => !(usedR s).contains n)
+    s!"{cc.1}:" ++ ",".intercalate ((enum T).map fun kn => s!"t{kn.1}=r{kn.2}") ++
+      s!":{if fresh then 1 else 0}"
+  [flags, pre ++ "asm ok"] ++ secLines ++ prgLines ++ [att, bl, outL, evL,
+    pre ++ "temps " ++ " ".intercalate tl]
+
+def step (c : Case) (line : String) : Case × List String :=
+  let fs := fields line
+  match fs with
+  | "CASE" :: cid :: rest =>
+    ({ cid := cid, g := { w := nat! ((kv rest "w").getD "16") }, inputs := [] }, [])
+  | ["INST", name, fname, ri, ro, body] =>
+    let f : Fragment := { name := fname, resin := natList ri, resout := natList ro, body := parseBody body }
+    ({ c with g := { c.g with insts := c.g.insts ++ [{ name := name, frag := f }] } }, [])
+  | ["LINK", name, s, d] =>
+    ({ c with g := { c.g with links := c.g.links ++ [{ name := name, src := parseSrc s, dst := parseDst d }] } }, [])
+  | ["INPUT", vs] => ({ c with inputs := c.inputs ++ [natList vs] }, [])
+  | ["INPUT"] => ({ c with inputs := c.inputs ++ [[]] }, [])
+  | ["PART", pid, spec] => (c, partLines c pid (parsePart spec))
+  | _ => (c, [])
+
+def main : IO Unit := do
+  let _ ← foldStdin ({} : Case) step
+  pure ()
